@@ -23,3 +23,23 @@ prop("C11",
      "Partial output when an I/O error strikes in the middle of generation (not a validation error); behaviour of the git "
      "package cache under ~/.yardl (table exception: not an output directory).",
      COMMON_ASSUME)
+
+prop("C09",
+     "Structural clauses of 'rules are enforced wherever a violation occurs': (P0) pass-order def-before-use — every validation "
+     "pass that reads a field produced by another pass (SimpleType.ResolvedDefinition, DefinitionMeta.Namespace, Environment.SymbolTable) "
+     "runs after its producer, every ValidationPass function is registered and passes run in slice order; (V1-V4) the visitor and "
+     "the rewriter have a case for every Node implementer and pass every Node-typed field on (child coverage), so a rule written "
+     "as a visitor reaches generic arguments, nested containers, union cases, steps and computed-field expressions; (X1) "
+     "validatePackage validates the package, every listed previous version and (through parse/flatten) every import; "
+     "(E1/E2/E5) on the loading and validation path no error is dropped, swallowed after being tested, or stored in a dead/shadowed variable.",
+     "That each rule's predicate is the right one (whether a given model violates a given language rule is behavioural).",
+     COMMON_ASSUME)
+
+prop("C12",
+     "Structural clauses of determinism/idempotence: (M1) every range over a Go map in the module has an order-independent effect "
+     "(commutative body, collect-then-sort, or constant return); (M2) both diagnostic sinks sort by file, line, column and message "
+     "before rendering; (M3) sink callbacks only add to sinks; (N1) no clock/RNG/environment primitive is reachable from validation "
+     "or generation (static call graph, codec methods included as roots); (W3) WriteFileIfNeeded skips the write only when the whole "
+     "existing content equals the new content; (W2) it is the only content writer of the generators.",
+     "Nondeterminism inside third-party libraries; byte identity of outputs (needs execution).",
+     COMMON_ASSUME)
